@@ -385,7 +385,38 @@ def replay_helper(w):
     return None
 
 
+def conversion_presence(lang):
+    """A `char **` input argument reaches C as an array of blank-padded elements; the documented rule (every element
+    trimmed and NUL-terminated) is carried out by the C wrapper's *_bufferify entry point with ShroudStrArrayAlloc.  The
+    entry point and the helper must exist for every such argument of the library (read from the regenerated module)."""
+    b = lc.get_build(BUILD_KEYS[lang])
+    defined = set()
+    for m in b.modules.values():
+        defined |= set(n for n, f in m.functions.items() if f.defined)
+
+    def walk(n):
+        for f in getattr(n, "functions", []):
+            if f._generated or not f.wrap.fortran:
+                continue
+            for a in f.ast.params:
+                if a.typemap.name == "char" and a.is_indirect() == 2 and a.attrs.get("intent", "in") == "in":
+                    clones = [g for g in n.functions if g._generated == "arg_to_buffer" and g.decl == f.decl]
+                    if not clones or not any(g.fmtdict.C_name in defined for g in clones):
+                        return "%s: the char ** input argument %r has no *_bufferify C entry point, so its elements are not trimmed and NUL-terminated" % (
+                            f.decl, a.name)
+                    if not any(re.search(r"ShroudStrArrayAlloc", n_) for n_ in defined):
+                        return "%s: helper ShroudStrArrayAlloc is not emitted although %r is a char ** input argument" % (f.decl, a.name)
+        for sub in list(getattr(n, "classes", [])) + list(getattr(n, "namespaces", [])):
+            r = walk(sub)
+            if r:
+                return r
+        return None
+    return walk(b.library)
+
+
 def confirm(w):
+    if w.get("kernel") == "presence":
+        return conversion_presence(w["lang"])
     if w.get("kernel") == "helper":
         return replay_helper(w)
     if tuple(w.get("build", ())) == cw.CFI_KEY:
@@ -422,6 +453,11 @@ def main():
                                 {"programs": 0, "disagreements_checked": 0, "samples": [], "evaluations": 1, "distinct_nontrivial": 0},
                                 [], rep.wall(), 0)
         return rep.finish()
+    for lang in langs:
+        pres = conversion_presence(lang)
+        if pres:
+            path = checklib.write_replay(PID, "presence-" + lang.replace("+", "x"), {"kernel": "presence", "lang": lang, "what": pres})
+            rep.violation(path, pres)
     specs, labels = [], []
     for lang in langs:
         for h in HELPERS:
